@@ -959,23 +959,26 @@ func main() {
 			hexs += fmt.Sprintf("%02x", bits[i])
 		}
 		fmt.Fprintf(w, "/-- Closure certificate: bit i is set iff node i is claimed reachable. -/\ndef certificate : Nat := 0x%s\n\n", hexs)
-		fmt.Fprintf(w, "/-- One call path from an entry point to every reachable sink site. -/\ndef witnessPaths : List (List Nat) := [\n")
-		first := true
-		for _, s := range sites {
-			if !s.Reachable {
-				continue
+		for _, kd := range []struct{ kind, def string }{{"clock", "witnessPaths"}, {"global", "globalWitnessPaths"}, {"goroutine", "goroutineWitnessPaths"}} {
+			fmt.Fprintf(w, "/-- One call path from an entry point to every reachable %s site, in the order of the site keys. -/\ndef %s : List (List Nat) := [\n", kd.kind, kd.def)
+			first := true
+			for _, s := range sites {
+				if !s.Reachable || s.Kind != kd.kind {
+					continue
+				}
+				strs := make([]string, len(s.PathIDs))
+				for j, v := range s.PathIDs {
+					strs[j] = fmt.Sprint(v)
+				}
+				if !first {
+					fmt.Fprintf(w, ",\n")
+				}
+				first = false
+				fmt.Fprintf(w, "  [%s]", strings.Join(strs, ","))
 			}
-			strs := make([]string, len(s.PathIDs))
-			for j, v := range s.PathIDs {
-				strs[j] = fmt.Sprint(v)
-			}
-			if !first {
-				fmt.Fprintf(w, ",\n")
-			}
-			first = false
-			fmt.Fprintf(w, "  [%s]", strings.Join(strs, ","))
+			fmt.Fprintf(w, "\n]\n\n")
 		}
-		fmt.Fprintf(w, "\n]\n\nend Poly.Generated.CallGraph\n")
+		fmt.Fprintf(w, "end Poly.Generated.CallGraph\n")
 	default:
 		fmt.Fprintln(os.Stderr, "unknown output", out)
 		os.Exit(2)
